@@ -93,6 +93,7 @@ pub enum GenerateError {
     UnsupportedCast,
 
     /// A floating point remainder assignment is rewritten to name its target twice so the target can only be a plain place
+    /// and the target is then read before the right operand is evaluated so the right operand can not write
     ComplexRemainderAssignment,
 
     /// Object type has no known descriptor type mapping
@@ -4257,7 +4258,44 @@ fn generate_intrinsic_op(
                         }
                     }
 
-                    if !is_plain_place(&exprs[0]) {
+                    // The right operand is evaluated before the target is read
+                    // fmod(x, y) does not promise that so y can not write anything
+                    fn is_free_of_writes(expr: &ir::Expression) -> bool {
+                        match expr {
+                            ir::Expression::Literal(_)
+                            | ir::Expression::Variable(_)
+                            | ir::Expression::MemberVariable(_, _)
+                            | ir::Expression::Global(_)
+                            | ir::Expression::ConstantVariable(_)
+                            | ir::Expression::EnumValue(_)
+                            | ir::Expression::SizeOf(_) => true,
+                            ir::Expression::StructMember(object, _, _)
+                            | ir::Expression::Swizzle(object, _)
+                            | ir::Expression::MatrixSwizzle(object, _)
+                            | ir::Expression::Cast(_, object) => is_free_of_writes(object),
+                            ir::Expression::ArraySubscript(object, index) => {
+                                is_free_of_writes(object) && is_free_of_writes(index)
+                            }
+                            ir::Expression::TernaryConditional(cond, lhs, rhs) => {
+                                is_free_of_writes(cond)
+                                    && is_free_of_writes(lhs)
+                                    && is_free_of_writes(rhs)
+                            }
+                            ir::Expression::Constructor(_, slots) => {
+                                slots.iter().all(|slot| is_free_of_writes(&slot.expr))
+                            }
+                            ir::Expression::IntrinsicOp(
+                                Plus | Minus | LogicalNot | BitwiseNot | Add | Subtract | Multiply
+                                | Divide | Modulus | LeftShift | RightShift | BitwiseAnd
+                                | BitwiseOr | BitwiseXor | BooleanAnd | BooleanOr | LessThan
+                                | LessEqual | GreaterThan | GreaterEqual | Equality | Inequality,
+                                operands,
+                            ) => operands.iter().all(is_free_of_writes),
+                            _ => false,
+                        }
+                    }
+
+                    if !is_plain_place(&exprs[0]) || !is_free_of_writes(&exprs[1]) {
                         return Err(GenerateError::ComplexRemainderAssignment);
                     }
 
